@@ -257,8 +257,6 @@ func (h *SexpHash) TypeCheckField(key Sexp, val Sexp) error {
 	case *SexpSymbol:
 		keySym = ks
 		wasSym = true
-	default:
-		return KeyNotSymbol
 	}
 	p := h.GoStructFactory
 	if p == nil {
@@ -292,6 +290,14 @@ func (h *SexpHash) TypeCheckField(key Sexp, val Sexp) error {
 		} else {
 			return nil
 		}
+	}
+
+	if !wasSym {
+		if h.TypeName != "hash" && h.TypeName != "field" {
+			// a declared struct only has the (symbol named) fields it declares
+			return fmt.Errorf("%s has no field '%s' [err 2]", p.UserStructDefn.Name, key.SexpString(nil))
+		}
+		return KeyNotSymbol
 	}
 
 	// type-check record updates here, if we are a record with a
